@@ -379,6 +379,12 @@ Proof.
         rewrite chain_flat_denote by discriminate. unfold denote_term; simpl; ring.
 Qed.
 
+Lemma printed_sentence_lemma : forall st m, good_map m ->
+  exists e, wf e /\ render e = construct st m /\ forall k, denote e k == dim m k.
+Proof.
+  intros st m H. destruct st; [exact (fraction_sentence m H)|exact (exponents_sentence m H)].
+Qed.
+
 (** ---- the round trip ---- *)
 Lemma roundtrip_lemma : forall st m, good_map m ->
   exists u, parse (construct st m) = Some u /\ forall k, dim u k == dim m k.
